@@ -37,6 +37,9 @@ def install(ctx):
         ctx.event('ConvolvedFluxes.interpolate:post')
         req, fl, er, names, tab, cw = OLD.S
         wit = {'table_au': tab, 'request_au': req, 'n_models': len(names)}
+        if er is None:            # a table without errors (optional): only the fluxes are judged
+            er = fl
+            ctx.event('convolved:table-without-errors')
         if tab is None or len(tab) == 1:
             ref_f = np.repeat(fl[:, :1], len(req), axis=1)
             ref_e = np.repeat(er[:, :1], len(req), axis=1)
@@ -49,7 +52,7 @@ def install(ctx):
                 ctx.violation('convolved:below-table-served', 'a radius below the smallest tabulated aperture was not refused', wit)
                 return True
         gf = np.asarray(result.flux.to(self.flux.unit).value, float)
-        ge = np.asarray(result.error.to(self.error.unit).value, float)
+        ge = np.asarray(result.error.to(self.error.unit).value, float) if self.error is not None and result.error is not None else ref_e
         if gf.shape != ref_f.shape or not O.close(gf, ref_f, 1e-11) or not O.close(ge, ref_e, 1e-11):
             bad = 'above' if tab is not None and np.any(req > tab[-1]) else 'inside'
             ctx.violation('convolved:wrong-interpolant:' + bad, 'interpolated convolved fluxes are not exact-at-knots / linear-between / clamped-above',
@@ -152,7 +155,7 @@ def run(ctx):
                'interpolate_variable clamps to 0.999*a_max by design: anything between the interpolants at 0.999*a_max and a_max is accepted',
                'rtol 1e-11 (1e-9 for the composite SED)')
     ctx.require_events('ConvolvedFluxes.interpolate:post', 'SED.interpolate:post', 'SED.interpolate_variable:post', 'variable:node-checked',
-                       'refused:convolved', 'refused:sed', 'refused:variable', 'convolved:same-table-again', 'convolved:table-changed-between-calls')
+                       'refused:convolved', 'refused:sed', 'refused:variable', 'convolved:same-table-again', 'convolved:table-changed-between-calls', 'convolved:table-without-errors')
     ctx.require_regimes('single-aperture', 'convolved:no-apertures', 'unit:pc', 'unit:cm', 'sed-apertures:cm', 'above-table', 'on-knot')
     n_it = 250 if ctx.quick else 10000
     for it in range(n_it):
@@ -174,7 +177,8 @@ def run(ctx):
             cf.apertures = tq
         fl = gen.conv_grid(rng, n_m, 1, n_ap=n_ap)[:, :, 0]
         cf.flux = fl * u.mJy
-        cf.error = fl * rng.uniform(0.01, 0.3, fl.shape) * u.mJy      # not proportional to the fluxes
+        if it % 10 != 7:
+            cf.error = fl * rng.uniform(0.01, 0.3, fl.shape) * u.mJy      # not proportional to the fluxes
         tab_au = np.asarray(tq.to(u.au).value, float)          # what the table is, after the user's unit choice
         req = requests(rng, tab_au, int(rng.integers(1, 7)))
         runit = str(rng.choice(['au', 'pc', 'cm']))
@@ -196,7 +200,7 @@ def run(ctx):
         wit = {'table': tq, 'request': rq, 'n_models': n_m}
         try:
             first = cf.interpolate(rq)
-            first = (probe.arr(first.flux), probe.arr(first.error))
+            first = (probe.arr(first.flux), probe.arr(first.error) if first.error is not None else probe.arr(first.flux))
             if it % 3 == 0:
                 # the same table interpolated again to other radii and to the first ones once more: no state may carry over
                 # (the contract snapshots request and table before every call)
@@ -204,7 +208,7 @@ def run(ctx):
                     cf.interpolate((requests(rng, tab_au, 3) * (1 + 1e-9) * u.au).to(u.Unit(str(un2))))
                 cf.interpolate((req * (1 + 1e-9) * u.au).to(u.Unit(runit)))
                 again = cf.interpolate(rq)
-                if not (O.close(probe.arr(again.flux), first[0], 1e-12) and O.close(probe.arr(again.error), first[1], 1e-12)):
+                if not (O.close(probe.arr(again.flux), first[0], 1e-12) and O.close(probe.arr(again.error) if again.error is not None else probe.arr(again.flux), first[1], 1e-12)):
                     ctx.violation('convolved:same-request-other-answer', 'the same table gives another answer to the same request after other requests were served', wit)
                 ctx.event('convolved:same-table-again')
             if it % 3 == 1:
@@ -212,10 +216,12 @@ def run(ctx):
                 # every call must answer from the table as it is then (the contract snapshots it before each call)
                 fl2 = gen.conv_grid(rng, n_m, 1, n_ap=n_ap)[:, :, 0]
                 cf.flux = fl2 * u.mJy
-                cf.error = fl2 * rng.uniform(0.01, 0.3, fl2.shape) * u.mJy
+                if cf.error is not None:
+                    cf.error = fl2 * rng.uniform(0.01, 0.3, fl2.shape) * u.mJy
                 cf.interpolate(rq)
                 new_order = np.array(rng.permutation(list(cf.model_names)))
-                cf.sort_to_match(new_order)
+                if cf.error is not None:          # (re-ordering a table without errors is not part of this property)
+                    cf.sort_to_match(new_order)
                 if list(cf.model_names) == list(new_order):
                     cf.interpolate(rq)
                     ctx.event('convolved:table-changed-between-calls')
